@@ -169,6 +169,7 @@ func TestVerifC12(t *testing.T) {
 		"strategy-without-matrix": "on: push\njobs:\n  a:\n    runs-on: ubuntu-latest\n    strategy:\n      fail-fast: true\n      max-parallel: 2\n    steps:\n      - run: echo\n",
 		"strategy-fail-fast-only": "on: push\njobs:\n  a:\n    runs-on: ubuntu-latest\n    strategy:\n      fail-fast: false\n    steps:\n      - run: echo\n",
 		"container-image-only":    "on: push\njobs:\n  a:\n    runs-on: ubuntu-latest\n    container: img\n    services:\n      db:\n        image: pg\n    steps:\n      - run: echo\n",
+		"with-args-entrypoint":    "on: push\njobs:\n  a:\n    runs-on: ubuntu-latest\n    steps:\n      - uses: docker://alpine:3.8\n        with:\n          args: a\n          entrypoint: e\n      - uses: some-owner/container-action@v1\n        with:\n          args: a\n          entrypoint: e\n          other: o\n      - uses: actions/checkout@v4\n        with:\n          Entrypoint: e\n          ARGS: a\n",
 		"job-timeout-only":        "on: push\njobs:\n  a:\n    runs-on: ubuntu-latest\n    timeout-minutes: 5\n    continue-on-error: false\n    steps:\n      - run: echo\n        timeout-minutes: 5\n        continue-on-error: false\n",
 	} {
 		ec, err := vBuildCatalogue(name, src)
